@@ -214,6 +214,25 @@ func init() {
 		}
 		return v
 	}
+	verifAPI["verifSerialize"] = func(fr *frame, args []value) value { return nil }
+	verifAPI["verifRunGoroutines"] = func(fr *frame, args []value) value {
+		fr.i.runPendingGo()
+		return nil
+	}
+	verifAPI["verifCompletes"] = func(fr *frame, args []value) (res value) {
+		res = true
+		defer func() {
+			if p := recover(); p != nil {
+				if gb, ok := p.(goBlocked); ok && gb.main {
+					res = false
+					return
+				}
+				panic(p)
+			}
+		}()
+		call(fr.i, fr, token.NoPos, args[0], nil)
+		return
+	}
 	verifAPI["verifSymbolic"] = func(fr *frame, args []value) value { return fr.i.vector == nil }
 	verifAPI["verifObserve"] = func(fr *frame, args []value) value {
 		if fr.i.vector != nil {
